@@ -6,7 +6,7 @@ CONSTANTS
   MaxUrl = 2
   ReuseOnLookup = FALSE
   FabricatedNorm = FALSE
-  EmptyParam = TRUE
+  EmptyParam = FALSE
   WildHostCheck = FALSE
   KF_Shadow = TRUE
   Source = "all"
